@@ -510,7 +510,7 @@ func ruleC07ArchiveSuffix(c *Checker) {
 				transformed := ""
 				for w := range p.backSlice(ci.Common().Args[0], 0) {
 					if tc, isCall := w.(*ssa.Call); isCall {
-						if o := calleeObj(tc); o != nil && (objPkgPath(o) == "strings" || objPkgPath(o) == "unicode" || objPkgPath(o) == "bytes") {
+						if o := calleeObj(tc); o != nil && (objPkgPath(o) == "strings" || objPkgPath(o) == "unicode" || objPkgPath(o) == "bytes" || objPkgPath(o) == "path" || objPkgPath(o) == "path/filepath") {
 							transformed = o.FullName()
 						}
 					}
@@ -682,6 +682,28 @@ func ruleGlobalAddrNotShared(id string) func(*Checker) {
 					}
 					n++
 					c.fail(id, p.FuncName(fn), "address of package variable "+g.Name()+" handed to a call", p.Pos(ci.Pos()), "the address of the package-level variable "+g.Name()+" is the receiver or an argument of "+shortCallee(fullName(calleeObj(ci)))+": the callee can write through it, and that state is shared by every Pack/Unpack in the process, including ones running at the same time")
+				}
+			}
+			// a package-level scratch slice ([]byte, []rune, …) handed to a call shares its backing array the same way
+			for _, ci := range callsIn(fn) {
+				for _, a := range ci.Common().Args {
+					ld, ok := canon(a).(*ssa.UnOp)
+					if !ok || ld.Op != token.MUL {
+						continue
+					}
+					g, ok := ld.X.(*ssa.Global)
+					if !ok || g.Pkg == nil || !strings.HasPrefix(g.Pkg.Pkg.Path(), p.ModPath) {
+						continue
+					}
+					sl, ok := g.Type().(*types.Pointer).Elem().Underlying().(*types.Slice)
+					if !ok {
+						continue
+					}
+					if _, basic := sl.Elem().Underlying().(*types.Basic); !basic {
+						continue
+					}
+					n++
+					c.fail(id, p.FuncName(fn), "package-level scratch slice "+g.Name()+" handed to a call", p.Pos(ci.Pos()), "the package-level slice "+g.Name()+" is handed to "+shortCallee(fullName(calleeObj(ci)))+": what the callee writes into it lands in one backing array shared by every call in the process, and two calls running at the same time read each other's data")
 				}
 			}
 		}
@@ -5558,5 +5580,105 @@ func ruleSourceAsGivenOnlyFollowed(id string) func(*Checker) {
 		}
 		visit(src, map[ssa.Value]bool{})
 		c.check(bad == "", id, p.FuncName(pack), "the source as given is only looked at and followed", p.Pos(pack.Pos()), "its only consumers are os.Lstat, filepath.Clean and the link-following loop", "the path as the caller spelled it is handed to "+bad+" before the link-following loop has replaced it by the directory it leads to")
+	}
+}
+
+// ruleEachRangeOnItsOwn — each source range of a diagnostic is rewritten on the strength of itself.
+func ruleEachRangeOnItsOwn(id string) func(*Checker) {
+	return func(c *Checker) {
+		c.rule(id, "In the wrapper that rewrites a finder diagnostic's file names into source addresses (the Source method of the bundle package that calls SourceAddr), each range field of the result (Subject, Context) is assigned its rewritten copy under conditions on that field alone: a test of the other range on the way — `no subject, nothing to rewrite` — leaves a diagnostic that has only a context range with the bare package-relative file name.", 2)
+		p := c.P
+		n := 0
+		for _, fn := range p.Funcs {
+			if !inBundlePkg(p, fn) || fn.Name() != "Source" || fn.Blocks == nil || fn.Signature.Recv() == nil {
+				continue
+			}
+			callsAddr := false
+			for _, ci := range callsIn(fn) {
+				if o := calleeObj(ci); o != nil && o.Name() == "SourceAddr" {
+					callsAddr = true
+				}
+			}
+			if !callsAddr {
+				continue
+			}
+			isRangeField := func(fa *ssa.FieldAddr) (string, bool) {
+				f := fieldOf(fa)
+				if f == nil {
+					return "", false
+				}
+				pt, ok := f.Type().Underlying().(*types.Pointer)
+				if !ok {
+					return "", false
+				}
+				nt, ok := pt.Elem().(*types.Named)
+				if !ok || nt.Obj().Name() != "SourceRange" {
+					return "", false
+				}
+				return f.Name(), true
+			}
+			eachInstr(fn, func(in ssa.Instruction) {
+				st, ok := in.(*ssa.Store)
+				if !ok {
+					return
+				}
+				fa, ok := st.Addr.(*ssa.FieldAddr)
+				if !ok {
+					return
+				}
+				own, ok := isRangeField(fa)
+				if !ok {
+					return
+				}
+				n++
+				foreign := ""
+				for _, b := range fn.Blocks {
+					ifi, ok := b.Instrs[len(b.Instrs)-1].(*ssa.If)
+					if !ok {
+						continue
+					}
+					if guarded(st.Block(), []Edge{{b, 0}}) == guarded(st.Block(), []Edge{{b, 1}}) {
+						continue // does not decide whether the store runs
+					}
+					// what the condition reads, operand by operand (not through the result variable as a whole,
+					// whose other field is of course assigned somewhere)
+					seen := map[ssa.Value]bool{}
+					var walk func(v ssa.Value)
+					walk = func(v ssa.Value) {
+						if v == nil || seen[v] {
+							return
+						}
+						seen[v] = true
+						switch x := v.(type) {
+						case *ssa.FieldAddr:
+							if other, ok := isRangeField(x); ok && other != own {
+								foreign = other
+							}
+							walk(x.X)
+						case *ssa.UnOp:
+							walk(x.X)
+						case *ssa.BinOp:
+							walk(x.X)
+							walk(x.Y)
+						case *ssa.Call:
+							for _, a := range x.Call.Args {
+								walk(a)
+							}
+						case *ssa.Extract:
+							walk(x.Tuple)
+						case *ssa.Phi:
+							for _, e := range x.Edges {
+								walk(e)
+							}
+						}
+					}
+					walk(ifi.Cond)
+				}
+				c.check(foreign == "", id, p.FuncName(fn), "rewrite of "+own+" decided by "+own+" alone", p.Pos(st.Pos()), "no test of another range guards it", "whether "+own+" is rewritten depends on a test of "+foreign+": a diagnostic whose "+foreign+" is absent keeps the package-relative file name in "+own)
+			})
+		}
+		if n == 0 {
+			c.anchorMissing(id, "the Source method that rewrites ranges")
+		}
 	}
 }
